@@ -13,9 +13,13 @@ def impl_lcs(n, m, rel):
             inner = lcs([1, 2, 3, 4, 5], [3, 1, 5, 2], lambda a, b: a == b)
             inner = list(inner) if inner is not None else None
             assert inner is None or len(inner) <= 4
-        return bool(rel[x][y])
+        # any truthy / falsy answer is a legitimate answer of a predicate: a count, a margin, a bit mask
+        return (3 + x + y) if rel[x][y] else 0
     try:
-        r = lcs(list(range(n)), list(range(m)), pred)
+        a, b = list(range(n)), list(range(m))
+        r = lcs(a, b, pred)
+        # the caller goes on using its lists: what the helper hands back describes the sequences it was CALLED with
+        a.reverse(); a.append(-1); b.clear()
         return None if r is None else [tuple(p) for p in r]
     except Exception as ex:  # noqa
         return "exc:" + type(ex).__name__
